@@ -3,6 +3,7 @@ import FlatModel.Proofs.Collapse
 import FlatModel.Proofs.Slice
 import FlatModel.Proofs.Consec
 import FlatModel.Proofs.Columns
+import FlatModel.Proofs.Ops
 /-! Every catalogued composition is covered by the laws: instance resolution finds `LawfulRegion`. -/
 namespace FC
 open Region
